@@ -37,12 +37,18 @@ Example utf8_wf_nonvacuous :
   /\ lex [97; 195; 169; 59]%N = Some [mkLex K_Ident 3; mkLex K_Semi 1].
 Proof. vm_compute. auto. Qed.
 
-(* The lexer turns a NUL byte into an Eof lexeme and nothing else does: on text
-   without NUL no lexeme is Eof. *)
-Theorem lexer_eof_only_at_nul : forall text ls,
-  no_nul text -> lex text = Some ls -> Forall (fun l => lk l <> K_Eof) ls.
+(* The lexer yields Eof only past the end of the input: a NUL byte in the text is
+   lexed like any other unexpected byte (it starts an identifier), so the parser
+   cannot mistake it for the end.  (Before the repair of fea-rs it was an Eof
+   lexeme and the rest of the file was silently dropped.) *)
+Theorem lexer_never_yields_eof : forall text ls,
+  lex text = Some ls -> Forall (fun l => lk l <> K_Eof) ls.
 Proof. exact lex_no_eof. Qed.
-Print Assumptions lexer_eof_only_at_nul.
+Print Assumptions lexer_never_yields_eof.
+
+Example nul_is_lexed :
+  lex [97; 59; 0; 98; 59]%N = Some [mkLex K_Ident 1; mkLex K_Semi 1; mkLex K_Ident 2; mkLex K_Semi 1].
+Proof. vm_compute. reflexivity. Qed.
 
 (* ========================= the sink, for any grammar ========================== *)
 
@@ -50,21 +56,31 @@ Print Assumptions lexer_eof_only_at_nul.
    concatenated in order, are exactly text[0 .. text_pos]; text_pos is where the
    lookahead buffer starts; text_pos plus everything buffered and not yet lexed
    is the length of the input; every node's stored length is the length of its
-   text.  (gm_lossless: see glyph_map_split_refuted below; it holds without a
-   glyph map.) *)
+   text.  With or without a glyph map. *)
 Theorem sink_prefix_invariant : forall gm text ls ops st0 st,
-  gm_lossless gm ->
   parser_new gm text ls = Some st0 -> run gm text st0 ops = Some st ->
   flatten_all (s_children (sk st)) = firstn (s_pos (sk st)) text
   /\ s_pos (sk st) <= length text
   /\ p_start (b0 st) = s_pos (sk st)
   /\ Forall wf_tree (s_children (sk st))
   /\ (total_len ls = length text -> s_pos (sk st) + total_len (pend st) = length text).
-Proof. exact run_prefix. Qed.
+Proof. intros gm text ls ops st0 st. apply run_prefix. apply gm_all_lossless. Qed.
 Print Assumptions sink_prefix_invariant.
 
-Theorem no_glyph_map_is_lossless : gm_lossless None.
-Proof. exact gm_none_lossless. Qed.
+(* With a glyph map, a hyphenated name that splits into two known glyphs becomes
+   a range node head, "-", tail[1..]: it spells the name it was given (exactly one
+   hyphen is taken out; before the repair of fea-rs every leading hyphen of the
+   tail was dropped, so `a--b` lost a byte). *)
+Theorem glyph_map_split_is_lossless : forall contains txt node,
+  try_split_range contains txt = Some node -> flatten node = txt.
+Proof. exact try_split_lossless. Qed.
+Print Assumptions glyph_map_split_is_lossless.
+
+Example split_nonvacuous :
+  exists node, try_split_range (fun w => bytes_eqb w [97%N] || bytes_eqb w [122%N]) [97; 45; 122]%N = Some node
+               /\ flatten node = [97; 45; 122]%N
+  /\ try_split_range (fun w => bytes_eqb w [97%N] || bytes_eqb w [98%N]) [97; 45; 45; 98]%N = None.
+Proof. vm_compute. eexists. repeat split; reflexivity. Qed.
 
 (* "sub a by b;" driven as the grammar would: the hypotheses are satisfiable *)
 Example sink_prefix_nonvacuous :
@@ -106,28 +122,38 @@ Proof. exact parser_new_total. Qed.
 Print Assumptions parser_new_returns.
 
 Theorem token_primitives_do_not_panic : forall gm text ops ls st0 st,
-  gm_lossless gm -> utf8_wf text = true -> lex text = Some ls ->
+  utf8_wf text = true -> lex text = Some ls ->
   parser_new gm text ls = Some st0 -> run gm text st0 ops = Some st ->
   (exists st', step gm text st OEatTrivia = Some st')
   /\ (exists st', step gm text st OEatRaw = Some st')
   /\ (forall k, exists st', step gm text st (OBump 1 k) = Some st').
-Proof. exact token_primitives_total. Qed.
+Proof. intros gm text ops ls st0 st. apply token_primitives_total. apply gm_all_lossless. Qed.
 Print Assumptions token_primitives_do_not_panic.
 
-(* The same is false for split_remap_current: it hands its parts to the sink
-   BEFORE the trivia attached to the current token, so the parts are cut out of
-   the text of that trivia; with a non-ASCII comment in front of the token a cut
-   lands inside a character and the slice panics, although the split itself is
-   valid ("#é\nb-c" split as b, -, c).  Reachable from the grammar
-   (`${a #é\n b-c}`; confirmed on the real code). *)
-Theorem split_with_pending_trivia_refuted :
-  exists text ls st0,
-    utf8_wf text = true /\ lex text = Some ls /\ parser_new None text ls = Some st0
-    /\ ll (p_tok (b0 st0)) = 3
-    /\ step None text st0 (OSplit [(0, 1, 232%N); (1, 2, 16%N); (2, 3, 232%N)]) = None.
-Proof.
-  exists [35; 195; 169; 10; 98; 45; 99]%N. vm_compute. eexists _, _. repeat split; reflexivity.
-Qed.
+(* split_remap_current: the trivia attached to the current token goes to the sink
+   first, then the parts; whenever the split function returns ranges that follow
+   one another from 0, cover the token and cut it on character boundaries, it
+   returns.  (Before the repair of fea-rs the parts were cut out of the text of
+   the pending trivia, and a non-ASCII comment in front of the token made it
+   panic.) *)
+Theorem split_remap_does_not_panic : forall gm text ops ls st0 st parts,
+  utf8_wf text = true -> lex text = Some ls ->
+  parser_new gm text ls = Some st0 -> run gm text st0 ops = Some st ->
+  parts_ok text (tok_start (b0 st)) 0 (ll (p_tok (b0 st))) parts ->
+  exists st', step gm text st (OSplit parts) = Some st'.
+Proof. intros gm text ops ls st0 st parts. apply split_total. apply gm_all_lossless. Qed.
+Print Assumptions split_remap_does_not_panic.
+
+(* "#é\nb-c" split as b, -, c: the tokens carry their own text *)
+Example split_after_trivia :
+  let text := [35; 195; 169; 10; 98; 45; 99]%N in
+  exists ls st0 st,
+    lex text = Some ls /\ parser_new None text ls = Some st0
+    /\ parts_ok text (tok_start (b0 st0)) 0 (ll (p_tok (b0 st0))) [(0, 1, 232%N); (1, 2, 16%N); (2, 3, 232%N)]
+    /\ step None text st0 (OSplit [(0, 1, 232%N); (1, 2, 16%N); (2, 3, 232%N)]) = Some st
+    /\ map tkind (s_children (sk st)) = [11; 10; 232; 16; 232]%N
+    /\ flatten_all (s_children (sk st)) = text.
+Proof. vm_compute. eexists _, _, _. repeat split; try reflexivity; lia. Qed.
 
 (* ========================= lossless ============================================ *)
 
@@ -135,61 +161,34 @@ Qed.
    root (grammar::root): the tree spells the input up to the first Eof lexeme of
    the (padded) lexeme stream. *)
 Theorem consumed_up_to_first_eof : forall gm text ls ops st0 st root,
-  gm_lossless gm ->
   parser_new gm text ls = Some st0 -> run gm text st0 ops = Some st ->
   at_eof st = true -> p_triv (b0 st) = [] -> sink_root (sk st) = Some root ->
   exists k pre e post,
     ls ++ repeat EOF0 k = pre ++ e :: post /\ lk e = K_Eof
     /\ flatten root = firstn (total_len pre) text.
 Proof.
-  intros gm text ls ops st0 st root G N R. apply at_eof_consumed.
-  eapply run_good; eauto.
+  intros gm text ls ops st0 st root N R. apply at_eof_consumed.
+  eapply run_good; eauto. apply gm_all_lossless.
 Qed.
 Print Assumptions consumed_up_to_first_eof.
 
-(* Full statement for text without NUL bytes, lexer included: the token texts of
-   the tree, concatenated in order, are exactly the input. *)
-Theorem front_end_lossless_without_nul : forall gm text ops ls st0 st root,
-  gm_lossless gm -> no_nul text ->
+(* Full statement, lexer included, for every input and with or without a glyph
+   map: the token texts of the tree, concatenated in order, are exactly the input. *)
+Theorem front_end_lossless : forall gm text ops ls st0 st root,
   lex text = Some ls -> parser_new gm text ls = Some st0 -> run gm text st0 ops = Some st ->
   at_eof st = true -> p_triv (b0 st) = [] -> sink_root (sk st) = Some root ->
   flatten root = text /\ wf_tree root.
-Proof. exact front_end_lossless. Qed.
-Print Assumptions front_end_lossless_without_nul.
+Proof. intros gm text ops ls st0 st root. apply Proofs.front_end_lossless. apply gm_all_lossless. Qed.
+Print Assumptions front_end_lossless.
 
-(* The same statement without `no_nul` is false: "a\0b" — the parser is at_eof
-   after `a`, and the tree spells only "a".  (Confirmed on the real code.) *)
-Theorem front_end_lossless_refuted_by_nul :
-  exists text ops ls st0 st root,
-    utf8_wf text = true /\ lex text = Some ls /\ parser_new None text ls = Some st0
-    /\ run None text st0 ops = Some st /\ at_eof st = true /\ p_triv (b0 st) = []
-    /\ sink_root (sk st) = Some root /\ flatten root <> text.
-Proof.
-  exists [97; 0; 98]%N, [OStart 120%N; OEatRaw; OEatTrivia; OFinish None [] 0%N].
-  vm_compute. eexists _, _, _, _. repeat split; try reflexivity. discriminate.
-Qed.
-
-(* With a glyph map, try_split_range rebuilds a name around ONE hyphen: on a
-   doubled hyphen the node it returns spells a shorter name, so gm_lossless fails
-   and the tree loses a byte.  (Confirmed on the real code: "a--b".) *)
-Theorem glyph_map_split_refuted :
-  exists contains txt node,
-    try_split_range contains txt = Some node /\ flatten node <> txt.
-Proof.
-  exists (fun w => bytes_eqb w [97%N] || bytes_eqb w [98%N]), [97; 45; 45; 98]%N.
-  vm_compute. eexists. split; [reflexivity|discriminate].
-Qed.
-
-(* … and only then: a name without "--" is rebuilt exactly *)
-Theorem glyph_map_split_lossless_without_double_hyphen : forall contains txt node,
-  no_double_hyphen txt -> try_split_range contains txt = Some node -> flatten node = txt.
-Proof. exact split_lossless_without_double_hyphen. Qed.
-Print Assumptions glyph_map_split_lossless_without_double_hyphen.
-
-Example split_nonvacuous :
-  exists node, try_split_range (fun w => bytes_eqb w [97%N] || bytes_eqb w [122%N]) [97; 45; 122]%N = Some node
-               /\ flatten node = [97; 45; 122]%N.
-Proof. vm_compute. eexists. split; reflexivity. Qed.
+(* "a\0b" driven to the end: hypotheses satisfiable, NUL included *)
+Example front_end_lossless_nonvacuous :
+  let text := [97; 0; 98]%N in
+  exists ls st0 st root,
+    lex text = Some ls /\ parser_new None text ls = Some st0
+    /\ run None text st0 [OStart 120%N; OEatRaw; OEatRaw; OEatTrivia; OFinish None [] 0%N] = Some st
+    /\ at_eof st = true /\ p_triv (b0 st) = [] /\ sink_root (sk st) = Some root /\ flatten root = text.
+Proof. vm_compute. eexists _, _, _, _. repeat split; reflexivity. Qed.
 
 (* ========================= positions ============================================ *)
 
@@ -210,31 +209,33 @@ Print Assumptions positions_consistent.
 
 (* err / warn / expect*: the range is the current token's, inside the source *)
 Theorem err_range_in_source : forall gm text ls ops st0 st,
-  gm_lossless gm -> total_len ls = length text ->
+  total_len ls = length text ->
   parser_new gm text ls = Some st0 -> run gm text st0 ops = Some st ->
   tok_start (b0 st) <= tok_end (b0 st) /\ tok_end (b0 st) <= length text.
 Proof.
-  intros gm text ls ops st0 st G T N R. eapply err_range_ok; eauto. eapply run_good; eauto.
+  intros gm text ls ops st0 st T N R. eapply err_range_ok; eauto. eapply run_good; eauto.
+  apply gm_all_lossless.
 Qed.
 Print Assumptions err_range_in_source.
 
 (* … and, lexer included, both its ends are character boundaries *)
 Theorem err_range_on_char_boundaries : forall gm text ops ls st0 st,
-  gm_lossless gm -> utf8_wf text = true -> lex text = Some ls ->
+  utf8_wf text = true -> lex text = Some ls ->
   parser_new gm text ls = Some st0 -> run gm text st0 ops = Some st ->
   tok_start (b0 st) <= tok_end (b0 st) /\ tok_end (b0 st) <= length text
   /\ is_boundary text (tok_start (b0 st)) = true /\ is_boundary text (tok_end (b0 st)) = true.
-Proof. exact err_range_boundaries. Qed.
+Proof. intros gm text ops ls st0 st. apply err_range_boundaries. apply gm_all_lossless. Qed.
 Print Assumptions err_range_on_char_boundaries.
 
 (* err_before_ws / warn_before_ws (`pos..pos + 1`): inside the source exactly when
    something is left of it *)
 Theorem err_before_ws_in_source_iff : forall gm text ls ops st0 st,
-  gm_lossless gm -> total_len ls = length text ->
+  total_len ls = length text ->
   parser_new gm text ls = Some st0 -> run gm text st0 ops = Some st ->
   (p_start (b0 st) + 1 <= length text <-> s_pos (sk st) < length text).
 Proof.
-  intros gm text ls ops st0 st G T N R. eapply err_before_ws_range; eauto. eapply run_good; eauto.
+  intros gm text ls ops st0 st T N R. eapply err_before_ws_range; eauto. eapply run_good; eauto.
+  apply gm_all_lossless.
 Qed.
 Print Assumptions err_before_ws_in_source_iff.
 
